@@ -753,7 +753,7 @@ def oracle(c, impl, traj):
     st = steps_of(c)
     tab, pend = [], []
     facts = {"deposits": 0, "projections": 0, "outside_steps": 0, "expansions": 0, "saves": 0, "wt_outside": 0,
-             "wrapped_steps": 0, "restarts": 0, "rebins": 0, "antipodal_steps": 0, "ebmeta_deposits": 0, "reloads": 0, "rebins_from_grids": 0}
+             "wrapped_steps": 0, "restarts": 0, "rebins": 0, "antipodal_steps": 0, "ebmeta_deposits": 0, "reloads": 0, "rebins_from_grids": 0, "bound_checks": 0, "bound_max_ratio": 0.0}
     restarted = False
     off_at_restart = []
     lingering = False      # after a restart without keepHills the hills near the edges stay listed until the next projection
@@ -935,6 +935,17 @@ def oracle(c, impl, traj):
             else:
                 sig = "energy" if not close(im["E"], eE) else "force"
             return (sig, "step %d (it=%d, x=%s, %s the grid): %s" % (n, it, x, "inside" if ins else "outside", what), n), facts
+        if ins and c["use_grids"] and all(v["kind"] == 0 and not v["periodic"] for v in c["vars"]):
+            # C05_discretisation_energy: the returned energy against the analytic sum of all hills at the actual position
+            lipb = math.exp(-0.5) * sum(v["w"] / (2 * v["sigma"]) for v in c["vars"]) + math.exp(-11.5)
+            bound = sum(abs(h[1]) for h in tab) * lipb
+            dev = abs(im["E"] - esum(c, x, tab + pend))
+            facts["bound_checks"] += 1
+            if bound > 0:
+                facts["bound_max_ratio"] = max(facts["bound_max_ratio"], dev / bound)
+            if dev > bound * (1 + 1e-9) + 1e-12:
+                return ("discretisation:bound-exceeded", "step %d (it=%d, x=%s): energy %r differs from the analytic sum of all hills %r by "
+                        "more than sum|W| * (exp(-1/2) sum w/(2 sigma) + exp(-23/2)) = %r" % (n, it, x, im["E"], esum(c, x, tab + pend), bound), n), facts
         if im.get("bias") != im["E"] or im["af"] != im["F"]:
             return ("applied:bias-output", "step %d: bias energy/applied force reported by the module (%r, %s) differ from "
                     "the bias's own (%r, %s)" % (n, im.get("bias"), im["af"], im["E"], im["F"]), n), facts
@@ -1080,8 +1091,10 @@ def check_one(run, c, impl, mo, txt, rcv, o, traj, mline):
     run.dist("unit_vector_vars", sum(1 for v in c["vars"] if v["kind"] == 2))
     run.dist("quaternion_vars", sum(1 for v in c["vars"] if v["kind"] == 3))
     run.dist("steps", len(impl))
-    for kk in ("deposits", "projections", "outside_steps", "expansions", "saves", "wt_outside", "wrapped_steps", "restarts", "rebins", "antipodal_steps", "ebmeta_deposits", "reloads", "rebins_from_grids"):
+    for kk in ("deposits", "projections", "outside_steps", "expansions", "saves", "wt_outside", "wrapped_steps", "restarts", "rebins", "antipodal_steps", "ebmeta_deposits", "reloads", "rebins_from_grids", "bound_checks"):
         run.dist(kk, facts[kk])
+    d_ = run.cov["distribution"]
+    d_["bound_max_ratio"] = max(d_.get("bound_max_ratio", 0.0), facts["bound_max_ratio"])
     if bad:
         sig, text, n = bad
         run.dist("oracle:" + sig)
